@@ -56,6 +56,14 @@ def execute(scn, policy=None, seed=0, labels=None, monitors=("notes", "records",
                 w.start_event(arn, s["name"], copy.deepcopy(s["input"]))
             elif via == "minimal":
                 w.start_minimal_event(arn, s["name"], copy.deepcopy(s["input"]))
+            elif via == "event-redelivered":
+                # the start event was taken from the shared queue by a consumer that died before doing anything with it: the broker hands it out again,
+                # flagged redelivered, and this engine is the first to handle it
+                w.start_event(arn, s["name"], copy.deepcopy(s["input"]))
+                for q in w.broker.queues.values():
+                    for m in q.messages:
+                        if m.props.message_id == "start-" + s["name"]:
+                            m.redelivered = True
             elif via == "rest":
                 r = w.api("StartExecution", {"stateMachineArn": arn, "name": s["name"], "input": json.dumps(s["input"])}, iid=s.get("iid"))
                 run.api.append(("StartExecution", r))
